@@ -242,7 +242,15 @@ def worker(ctx):
                 plan_.append((pause, kind, pk))
                 steps.append((pause, _op(kind, pk)))
             case = dict(kind="virtual", schedule=[(p, k, pk) for p, k, pk in plan_])
-            judged = run_schedule(steps, ctx, "virtual", _virtual_sleeper)
+            try:
+                judged = run_schedule(steps, ctx, "virtual", _virtual_sleeper)
+            except Exception as ex:  # noqa: BLE001 - the history only holds operations the store must accept (refusals are caught inside)
+                from ..worker import raised_by_code_under_test
+                mine, where = raised_by_code_under_test(ex)
+                if not mine:
+                    raise
+                ctx.record(case, [(f"unexpected-exception:{type(ex).__name__}@{where}", f"{type(ex).__name__}: {str(ex)[:300]}")], sig=None, nontrivial=True)
+                continue
             v = _record(ctx, judged, case, "virtual_pauses_judged")
             ctx.record(case, v, sig=None, nontrivial=bool(judged), weight=max(1, len(judged)))
     finally:
